@@ -253,7 +253,9 @@ def multi_requests(rng, n, fixed_bug_bound=None):
         words += [rng.u64() for _ in range(rng.below(2))]
         if rng.chance(1, 15):
             words = words[: rng.below(len(words) + 1)]
-        reqs.append("multi items=%s buf=%s words=%s" % (",".join(map(str, its)), ",".join(map(str, buf)), ",".join(map(str, words))))
+        # what the callee can learn from size_hint must not matter: the same collection behind differently hinted iterators
+        hint = rng.choice(["", "", " hint=filter", " hint=none", " hint=lower", " hint=upper", " hint=exact", " hint=vec", " hint=chain"])
+        reqs.append("multi items=%s buf=%s%s words=%s" % (",".join(map(str, its)), ",".join(map(str, buf)), hint, ",".join(map(str, words))))
     return reqs
 
 
